@@ -409,6 +409,14 @@ func checkSeq(c SeqCase) error {
 				// mostly the right name for that id
 				if j := m.find(in.ID); j >= 0 && op.Pick%3 != 0 {
 					in.Name = m.entries[j].name
+					// now and then a description rebuilt from scratch: the right
+					// name, the identifier left at zero (or taken from a stranger)
+					switch op.Pick % 11 {
+					case 4:
+						in.ID = 0
+					case 8:
+						in.ID = m.last + 1
+					}
 				}
 			}
 		}
